@@ -105,6 +105,32 @@ def join_wf(rng):
 
 
 def random_cfg(rng, alg=None, family="roomy", nobs=None, maxn=4):
+    if family == "b2b":
+        # sub-array observations that start exactly when others finish, with
+        # spare arrays, spare machines and a generous ingest limit
+        c = random_cfg(rng, alg=alg, family="roomy", nobs=3, maxn=3)
+        nm = rng.randint(4, 5)
+        c["machines"] = [{"id": f"m{i}", "cpu": rng.choice([1, 2]), "bw": 1} for i in range(nm)]
+        c["K"] = 1
+        c["arrays"] = rng.randint(4, 6)
+        c["maxIngest"] = rng.randint(3, nm)
+        t = rng.randint(0, 1)
+        for i, o in enumerate(c["obs"]):
+            o["demand"], o["ing"] = rng.randint(1, 2), 1
+            o["dur"] = rng.randint(1, 3)
+            o["est"] = t
+            if rng.random() < 0.7:
+                t += o["dur"]          # next one starts when this one finishes
+            else:
+                t += rng.randint(0, o["dur"])
+        vols = [o["rate"] * o["dur"] for o in c["obs"]]
+        c["hotCap"] = (sum(vols) * 10) // 6 + 3
+        c["coldCap"] = max(vols) + 2
+        if c["alg"] == "batch":
+            c["parts"], c["minPer"], c["split"] = rng.choice([1, 2]), 1, []
+        if c["alg"] in ("plan", "greedy"):
+            c["plan"] = static_plan(c, rng)
+        return normalise(c)
     if family == "join":
         c = random_cfg(rng, alg=alg, family="roomy", nobs=nobs or rng.choice([1, 1, 2]), maxn=maxn)
         nm = rng.randint(2, 3)
